@@ -239,6 +239,6 @@ def execute(case, ctx):
 
 SUBS = [
     Sub("process_logits", execute, strategy=lambda tier: cases(tier),
-        budget={"quick": 12000, "thorough": 200000}, shards=16),
+        budget={"quick": 36000, "thorough": 200000}, shards=16),
 ]
 TIME_CAP = {"quick": 300, "thorough": 2400}
